@@ -38,6 +38,8 @@ class Spec(PropSpec):
             n *= 2
         cases = [F.gen_script(ctx.rng, "local") for _ in range(n)]
         cases += [F.gen_script(ctx.rng, "sim") for _ in range(n // 5)]
+        nb = 12 if ctx.tier == "quick" else 80
+        cases += [F.gen_burst(ctx.rng, "local") for _ in range(nb)] + [F.gen_burst(ctx.rng, "sim") for _ in range(nb // 2)]
         ex = F.exhaustive_small()
         if ctx.tier == "quick":
             ex = ctx.rng.sample(ex, min(len(ex), 60))
